@@ -585,13 +585,13 @@ def section_product():
 
 
 # ------------------------------------------------------------------------------ C12 / C10 through block_diagonalize
-def _lazy_problem(hermitian=True, nparam=2, symbols=None, recursive=False, blocked=False):
+def _lazy_problem(hermitian=True, nparam=2, symbols=None, recursive=False, blocked=False, h0_diag=(0.0, 1.0, 3.0, 4.5)):
     """symbols: names given to block_diagonalize that differ from the series' own dimension names; recursive: the user's eval builds order n from
     its own lower orders (read through the series, i.e. through its cache); blocked: the series is given with a 2x2 block structure."""
     from pymablock import block_diagonalize
     rng = np.random.default_rng(5)
     n = 4
-    h0 = np.diag([0.0, 1.0, 3.0, 4.5])
+    h0 = np.diag(list(h0_diag))
     terms = {}
 
     def term(order):
@@ -642,7 +642,9 @@ def section_lazy():
     global cases
     import sympy as _sp
     variants = [dict(), dict(symbols=[_sp.Symbol("alpha"), _sp.Symbol("beta")]), dict(recursive=True), dict(recursive=True, symbols=[_sp.Symbol("alpha"), _sp.Symbol("beta")]),
-                dict(blocked=True), dict(blocked=True, symbols=[_sp.Symbol("alpha"), _sp.Symbol("beta")]), dict(blocked=True, recursive=True, symbols=[_sp.Symbol("p"), _sp.Symbol("q")])]
+                dict(blocked=True), dict(blocked=True, symbols=[_sp.Symbol("alpha"), _sp.Symbol("beta")]), dict(blocked=True, recursive=True, symbols=[_sp.Symbol("p"), _sp.Symbol("q")]),
+                # an identically zero block of H_0 (a degenerate zero-energy subspace): its size is not visible in the zeroth-order term
+                dict(h0_diag=(0.0, 0.0, 2.0, 4.0)), dict(h0_diag=(2.0, 4.0, 0.0, 0.0), blocked=True), dict(h0_diag=(0.0, 0.0, 2.0, 4.0), recursive=True, symbols=[_sp.Symbol("p"), _sp.Symbol("q")])]
     for hermitian, var in [(h, v) for h in (True, False) for v in variants]:
         try:
             H, (Ht, U, Ud), log, terms = _lazy_problem(hermitian, **var)
